@@ -30,6 +30,9 @@ package minersc
 //@ func GetPhaseNode
 //@   trusted
 //@   ensures result1 == nil ==> result0 != nil && fresh(result0)
+// ASSUMPTION (history): the stored phase node is well-formed - a phase of the enumeration, a phase clock
+// that started at or before the current block's round, a restart counter that has not run out
+//@   ensures result1 == nil ==> 0 <= result0.Phase && result0.Phase < 1000 && 0 <= result0.StartRound && result0.StartRound <= result0.CurrentRound && 0 <= result0.Restarts && result0.Restarts < MaxInt64
 //@   modifies nothing
 // (setPhaseNode: contract in the view-change section below)
 //@ func (*MinerSmartContract).adjustViewChange
@@ -74,7 +77,7 @@ package minersc
 // the block reward and to the block's fees.
 //@ func (*MinerSmartContract).payFees
 //@   prop C22
-//@   requires msc != nil && t != nil && gn != nil
+//@   requires msc != nil && t != nil && gn != nil && balances != nil
 //@   opaque DistributeRewardsRandN, GetItemsByIDs, viewChangeDeleteNodes, setLastRound, Shuffle
 // once both sharder-side payments are made (and while the paid sharders are saved) the rewarded
 // sharders have been handed exactly the sharder side of the fees plus the sharder side of the reward
